@@ -1,6 +1,6 @@
 (* Tie of the C17 models to the current source text: Gen/C17Consts.v is
    regenerated on every check from latlng.go and time.go (constants as Go's
-   constant evaluator computes them, comparison operators in source order); the
+   constant evaluator computes them, the operators of time.go's two conversion functions in source order); the
    lemmas below state that the models use exactly those.  A change of a bound,
    an operator, the precision, the sentinel, the epoch or the time unit in the
    source breaks them. *)
@@ -10,23 +10,10 @@ Import ListNotations.
 Local Open Scope string_scope.
 Local Open Scope Z_scope.
 
-(* the comparisons of the model functions, written the way the translator
-   reports the source's *)
-Definition model_NewLatitude : list (string * Z) := [("==", sint32_invalid); ("<", lat_min); (">", lat_max)].
-Definition model_NewLatitudeDegrees : list (string * Z) := [(">=", 90); ("<=", -90)].
-Definition model_NewLongitudeDegrees : list (string * Z) := [(">=", 180); ("<=", -180)].
-Definition model_sentinel_test : list (string * Z) := [("==", sint32_invalid)].
-(* strconv.FormatFloat(_, 'f', precision, 32): 'f' is 102 *)
-Definition model_String : list (string * Z) := [("==", sint32_invalid); ("FormatFloat", 102); ("FormatFloat", precision); ("FormatFloat", 32)].
-
+(* the package constants; the functions of latlng.go themselves are translated into Gen/C17Funcs.v and proved
+   equal to the model in Proofs/C17Funcs.v *)
 Lemma latlng_consts_agree :
-  src_sint32Invalid = sint32_invalid /\ src_precision = precision /\ src_stringInvalid = string_invalid /\
-  src_NewLatitude = model_NewLatitude /\
-  src_NewLatitudeDegrees = model_NewLatitudeDegrees /\
-  src_NewLongitudeDegrees = model_NewLongitudeDegrees /\
-  src_Latitude_Degrees = model_sentinel_test /\ src_Longitude_Degrees = model_sentinel_test /\
-  src_Latitude_Invalid = model_sentinel_test /\ src_Longitude_Invalid = model_sentinel_test /\
-  src_Latitude_String = model_String /\ src_Longitude_String = model_String.
+  src_sint32Invalid = sint32_invalid /\ src_precision = precision /\ src_stringInvalid = string_invalid.
 Proof. repeat split; reflexivity. Qed.
 
 (* days from 1970-01-01 of a proleptic Gregorian date (year >= 1) *)
